@@ -17,6 +17,17 @@ CLAIMED = {
         design="7/C14"),
 }
 
+CLAIMED["C10"] = dict(
+    text="The grammar machine BBGrammar (built from blackbird.g4) decides for every token string whether it is a sentence and which token is "
+         "the first that makes it ungrammatical (FirstBad). TLC enumerates every viable prefix of the grammar's subset automaton up to a length "
+         "bound and the harness extends each by every token type; plus single-token mutants of whole scripts and token soups judged by TLC in "
+         "batch. Every case is run through the real loads(): sentence <=> the tree walker is entered; otherwise BlackbirdSyntaxError exactly, "
+         "with a 1-based line:column that is the start of a token not earlier than FirstBad.",
+    note="Trusted: TLC; the text->token step is the real lexer (its equivalence with the grammar is C14's subject; texts that do not lex back "
+         "to the intended token types are dropped). Bounded: prefixes up to 11 (quick) / 13 (thorough) tokens, random single-token mutants.",
+    technique="TLC grammar-machine oracle (viable-prefix / FirstBad) replayed into the real parser and error listener",
+    design="7/C10")
+
 NOT_YET = {}
 
 
